@@ -121,6 +121,9 @@ static int do_call(int m, int f, int a, int b)
   case 2: return mocks[m]->f(std::string("s") + std::to_string(a));
   case 3: { Mock const& cm = *mocks[m]; return cm.g(a, b); }
   case 4: mocks[m]->v(a); return 0;
+  case 5: return mocks[m]->z();
+  case 6: return mocks[m]->h(a, b, b);
+  case 7: { std::string r = mocks[m]->q(a); return r.size() > 1 && r[0] == 'r' ? std::atoi(r.c_str() + 1) : -77; }
   }
   return -1;
 }
